@@ -1,3 +1,4 @@
+import EvermintModel.Model.CreateAddr
 import EvermintModel.Model.Cpc
 import Driver.Common
 import Driver.Block
@@ -22,6 +23,11 @@ def step (s : State) (toks : List String) : State × String :=
   let cand := Driver.Erc20.nats (kv (toks.drop 1) "cand")
   let denoms := Driver.Erc20.nats (kv (toks.drop 1) "denoms")
   match toks with
+  | ["caddr", sender, nonce] =>
+    -- the address of a deployed precompile: CreateAddress(module account, nonce), RLP and Keccak-256 in Lean
+    match Evermint.Keccak.ofHex sender, nonce.toNat? with
+    | some a, some n => if a.length == 20 then (s, Evermint.Keccak.toHex (Evermint.CreateAddr.createAddress Evermint.Keccak.keccak256 a n)) else (s, "bad-op")
+    | _, _ => (s, "bad-op")
   | "cgen" :: rest =>
     let s' := genesis (kvNat rest "v") (Driver.Erc20.nats (kv rest "wl")) (kvNat rest "e" == 1) (kvNat rest "st" == 1) (kvNat rest "bond")
     (s', "ok " ++ dump s' cand denoms)
